@@ -79,9 +79,7 @@ void report_level(Out &o, const int *base, int level, const Prev &prev, const Su
   o.field(("of" + L).c_str(), str_i128(map_offset));
   o.field(("sp" + L).c_str(), str_i128(to_i128(sub.mapping().required_span_size())));
   o.field(("h" + L).c_str(), str_i128((i128)(sub.data_handle() - base)));
-  static_assert(std::is_same<typename Sub::index_type, typename Prev::index_type>::value, "index type carried over");
-  static_assert(std::is_same<typename Sub::element_type, typename Prev::element_type>::value, "element type carried over");
-  static_assert(std::is_same<typename Sub::accessor_type, typename Prev::accessor_type::offset_policy>::value, "offset_policy carried over");
+  // index type, element type and the accessor's offset_policy are carried over: reported in the field "ac" (0 = all three hold)
   // element addresses: of the result, and of the source element each must alias
   bool idxs[] = {sl_traits<Sl>::index..., false};
   i128 firsts[] = {sl_traits<Sl>::first(slices)..., 0};
@@ -102,16 +100,31 @@ void report_level(Out &o, const int *base, int level, const Prev &prev, const Su
   }
   o.field(("ad" + L).c_str(), Out::list(ad));
   o.field(("sa" + L).c_str(), Out::list(sa));
+  // the accessor of the result is the source accessor's offset_policy (here: default_accessor<int> in both cases)
+  { int ac = 0;
+    if (!std::is_same<typename Sub::accessor_type, typename Prev::accessor_type::offset_policy>::value) ac += 1;
+    if (!std::is_same<typename Sub::index_type, typename Prev::index_type>::value) ac += 2;
+    if (!std::is_same<typename Sub::element_type, typename Prev::element_type>::value) ac += 4;
+    o.field(("ac" + L).c_str(), std::to_string(ac)); }
 }
 
 // source context: a buffer of required_span_size() ints (at least 1) and an mdspan over it.  Shapes near
 // the representability boundary get no storage: only addresses are formed, nothing is dereferenced.
-template <class M> struct SubCtx {
+// an accessor whose offset_policy is NOT itself (like an over-aligned accessor: a sub-view loses the guarantee)
+template <class T> struct aligned_acc {
+  using offset_policy = Kokkos::default_accessor<T>; using element_type = T; using reference = T &; using data_handle_type = T *;
+  constexpr aligned_acc() noexcept = default;
+  constexpr operator Kokkos::default_accessor<T>() const noexcept { return {}; }   // submdspan builds offset_policy(src.accessor())
+  constexpr reference access(data_handle_type p, size_t i) const noexcept { return p[i]; }
+  constexpr typename offset_policy::data_handle_type offset(data_handle_type p, size_t i) const noexcept { return p + i; }
+};
+template <class M, int ACC = 0> struct SubCtx {
   using E = typename M::extents_type; using LT = typename M::layout_type;
+  using A = std::conditional_t<ACC == 0, Kokkos::default_accessor<int>, aligned_acc<int>>;
   std::vector<int> buf;
-  Kokkos::mdspan<int, E, LT> md;
+  Kokkos::mdspan<int, E, LT, A> md;
   static size_t alloc_size(const M &m) { i128 sp = to_i128(m.required_span_size()); return (sp > 0 && sp <= (i128(1) << 20)) ? (size_t)sp : 1; }
-  explicit SubCtx(const M &m) : buf(alloc_size(m), 0), md(buf.data(), m) {}
+  explicit SubCtx(const M &m) : buf(alloc_size(m), 0), md(buf.data(), m, A()) {}
 };
 
 } // namespace drv
